@@ -6,7 +6,7 @@ from ..runner import Prop, Group
 from . import elicit_common as E
 
 REQ = "From SCK Require Import ElicitM ElicitRules RunElicit."
-KINDS = ["unit", "skew", "ties", "zero", "straddle"]
+KINDS = ["unit", "skew", "ties", "zero", "straddle", "source_constants"]
 
 class C14(Prop):
     layouts = True
@@ -54,7 +54,7 @@ class C14(Prop):
                 n = m
                 if m > 8: m = n = 2 + (i // 4) % 7
                 k = rng.randint(1, m)
-            kind = KINDS[(i // 4) % 5] if rule != "M2Q" else rng.choice(KINDS[:4])
+            kind = KINDS[(i // 4) % 6] if rule != "M2Q" else rng.choice(KINDS[:4])
             P, V = E.gen_pair(rng, n, m, kind, k)
             ent = {"KARV": "KARV.get_simulated_cardinal_profile", "TSF": "LambdaTSF.get_simulated_cardinal_profile", "M2Q": "MatchTwoQueries.get_simulated_cardinal_profile"}[rule]
             pre = []
